@@ -738,14 +738,22 @@ func (f *File) Truncate(size int64) error {
 	}
 
 	if size > oldSize {
-		if err := f.writeBuf.Truncate(0); err != nil {
+		// Extend the content with zeros; keep what is there and where the cursor is
+		pos, err := f.writeBuf.Seek(0, io.SeekCurrent)
+		if err != nil {
 			return err
 		}
 
-		for i := int64(0); i < size; i++ {
-			if _, err := f.writeBuf.Write(make([]byte, 1)); err != nil {
-				return err
-			}
+		if _, err := f.writeBuf.Seek(0, io.SeekEnd); err != nil {
+			return err
+		}
+
+		if _, err := f.writeBuf.Write(make([]byte, size-oldSize)); err != nil {
+			return err
+		}
+
+		if _, err := f.writeBuf.Seek(pos, io.SeekStart); err != nil {
+			return err
 		}
 
 		return nil
